@@ -56,7 +56,23 @@ def nat_verdict(norm: str) -> str:
         return G.verdict(m, bban[8:]) if m in G.METHODS else R.DONT_CARE
     if cc in N.LENGTHS:
         return N.verdict(cc, bban, data.countries()[cc]["bban_length"])
+    if _lib_algorithms() is not None and f"{cc}:default" in _lib_algorithms():
+        return R.DONT_CARE  # an algorithm the reference does not know (feature addition): not judged
     return R.ACCEPT
+
+
+_ALGOS = []
+
+
+def _lib_algorithms():
+    if not _ALGOS:
+        try:
+            from schwifty.checksum import algorithms  # noqa: PLC0415
+
+            _ALGOS.append(algorithms)
+        except Exception:  # noqa: BLE001
+            _ALGOS.append(None)
+    return _ALGOS[0]
 
 
 def run_iban(shard, mon):
